@@ -44,6 +44,18 @@ Theorem C19_consumers_of_triple : forall (m : bool) (r l : N), r < 2^32 -> l < 2
   wire_gi (m, r, l) = be 32 v /\ prover_gi (m, r, l) = be 32 v /\ commit_gi (m, r, l) = le 32 v.
 Proof. exact consumers_of_triple. Qed.
 
+(* certificate level: a certificate / prover request with ANY number of claims carries, at position i of every carrier
+   (wire message, prover request, signed commitment preimage, optimistic commitment preimage), the number of claim i *)
+Theorem C19_consumers_of_claim_list : forall ts : list (bool * N * N), Forall wf_triple ts ->
+  map wire_gi ts = map (fun t => be 32 (layout_of t)) ts /\
+  map prover_gi ts = map (fun t => be 32 (layout_of t)) ts /\
+  map commit_gi ts = map (fun t => le 32 (layout_of t)) ts /\
+  map (fun t => optimistic_gi (enc3 t)) ts = map (fun t => le 32 (layout_of t)) ts /\
+  map (fun t => of_be (wire_gi t)) ts = map layout_of ts /\
+  map (fun t => of_be (prover_gi t)) ts = map layout_of ts /\
+  map (fun t => of_le (commit_gi t)) ts = map layout_of ts.
+Proof. exact consumers_of_claim_list. Qed.
+
 Theorem C19_le_is_reversed_be : forall v, rev (le 32 v) = be 32 v.
 Proof. exact le_be_rev. Qed.
 
@@ -62,5 +74,6 @@ Print Assumptions C19_decode_closed_form.
 Print Assumptions C19_encode_decode_canonical.
 Print Assumptions C19_consumers_agree.
 Print Assumptions C19_consumers_of_triple.
+Print Assumptions C19_consumers_of_claim_list.
 Print Assumptions C19_le_is_reversed_be.
 Print Assumptions C19_noncanonical_lossy.
